@@ -111,6 +111,7 @@ type c01Out struct {
 	violMon                    []string
 	drift                      []kgLine
 	sample                     any
+	alphabet                   []Token
 }
 
 func runC01Plan(c *core.Ctx, p c01Plan, maxBeh int) (*c01Out, error) {
@@ -161,7 +162,7 @@ func runC01Plan(c *core.Ctx, p c01Plan, maxBeh int) (*c01Out, error) {
 		}
 		maxb = th
 	}
-	out := &c01Out{plan: p, states: res.States, distinct: res.Distinct}
+	out := &c01Out{plan: p, states: res.States, distinct: res.Distinct, alphabet: alphabet}
 	k := 3 // every chunk is validated by its own TLC run
 	if c.Thorough() {
 		k = 8
@@ -322,6 +323,9 @@ func isPrefix(a, b []int) bool {
 
 // CheckC01 runs the C01 check (part A: in-memory aggregation; part B: handler pipeline, see c01b.go).
 func CheckC01(c *core.Ctx) int {
+	if c.Replay != "" {
+		return replayC01(c)
+	}
 	kinds := []string{"valid", "otherId", "otherEon", "garbage"}
 	var plans []c01Plan
 	maxN := 3
@@ -397,7 +401,11 @@ func CheckC01(c *core.Ctx) int {
 		for i, l := range o.viol {
 			violations++
 			if i < 3 {
-				path := c.WriteReplay(fmt.Sprintf("A-%d-%d-%d", p.N, p.T, i), map[string]any{"part": "A", "plan": p, "monitor": o.violMon[i], "line": l})
+				var toks []Token
+				for _, k := range l.Hist {
+					toks = append(toks, o.alphabet[k-1])
+				}
+				path := c.WriteReplay(fmt.Sprintf("A-%d-%d-%d", p.N, p.T, i), map[string]any{"part": "A", "plan": p, "monitor": o.violMon[i], "tokens": toks, "line": l})
 				c.Violation(path, fmt.Sprintf("%s failed for n=%d t=%d after history %v: token %+v err=%q panic=%q observed %v", o.violMon[i], p.N, p.T, l.Hist, l.Tok, l.Err, l.Panic, l.St))
 			}
 		}
@@ -440,4 +448,99 @@ func filterPlans[P any](plans []P, name func(P) string) []P {
 		}
 	}
 	return keep
+}
+
+// replayC01 re-executes the delivery history of a replay file (part A: tokens on the real EpochKG,
+// part B: messages on the real handler) and validates the recorded steps with TLC.
+func replayC01(c *core.Ctx) int {
+	b, err := os.ReadFile(c.Replay)
+	if err != nil {
+		fmt.Println("INCONCLUSIVE:", err)
+		return core.ExitInconclusive
+	}
+	var r struct {
+		Part     string          `json:"part"`
+		Plan     json.RawMessage `json:"plan"`
+		Tokens   []Token         `json:"tokens"`
+		Messages []pipeMsg       `json:"messages"`
+	}
+	if err := json.Unmarshal(b, &r); err != nil {
+		fmt.Println("INCONCLUSIVE: not a C01 replay file:", err)
+		return core.ExitInconclusive
+	}
+	var buf bytes.Buffer
+	var vr *vresult
+	switch r.Part {
+	case "A":
+		var p c01Plan
+		if err := json.Unmarshal(r.Plan, &p); err != nil || p.N == 0 {
+			fmt.Println("INCONCLUSIVE: bad plan in replay file")
+			return core.ExitInconclusive
+		}
+		w := NewWorld(p.N, p.T, p.Idents, c.Seed)
+		kg := epochkg.NewEpochKG(w.PureResult(0))
+		enc := func(l kgLine) {
+			if l.Hist == nil {
+				l.Hist = []int{}
+			}
+			jb, _ := json.Marshal(l)
+			buf.Write(jb)
+			buf.WriteByte('\n')
+		}
+		enc(kgLine{K: "new", St: absKG(w, p.Idents, kg)})
+		for d, tok := range r.Tokens {
+			errc, pan := handleToken(w, kg, tok)
+			l := kgLine{K: "share", D: d + 1, Tok: tok, Err: errc, Panic: pan, St: absKG(w, p.Idents, kg)}
+			fmt.Printf("  token %+v err=%q panic=%q observed=%v\n", tok, errc, pan, l.St)
+			enc(l)
+		}
+		vr, err = validateKGTrace(p, buf.Bytes())
+	case "B":
+		var p pipePlan
+		if err := json.Unmarshal(r.Plan, &p); err != nil || p.N == 0 {
+			fmt.Println("INCONCLUSIVE: bad plan in replay file")
+			return core.ExitInconclusive
+		}
+		rig, rerr := newPipeRig(p, c.Seed)
+		if rerr != nil {
+			fmt.Println("INCONCLUSIVE:", rerr)
+			return core.ExitInconclusive
+		}
+		defer rig.closeFn()
+		enc := func(l pipeLine) {
+			if l.Hist == nil {
+				l.Hist = []int{}
+			}
+			if l.Out == nil {
+				l.Out = [][]pipeKey{}
+			}
+			if l.Msg.Shares == nil {
+				l.Msg.Shares = []pipeItem{}
+			}
+			jb, _ := json.Marshal(l)
+			buf.Write(jb)
+			buf.WriteByte('\n')
+		}
+		enc(pipeLine{K: "new", St: rig.abs()})
+		for d, m := range r.Messages {
+			l := rig.deliver(m)
+			l.D = d + 1
+			fmt.Printf("  message %+v verdict=%s verr=%q err=%q panic=%q emitted=%v tables=%v\n", m, l.Verdict, l.Verr, l.Err, l.Panic, l.Out, l.St)
+			enc(l)
+		}
+		vr, err = validatePipeTrace(p, buf.Bytes())
+	default:
+		fmt.Println("INCONCLUSIVE: replay file has no part A/B")
+		return core.ExitInconclusive
+	}
+	if err != nil {
+		fmt.Println("INCONCLUSIVE:", err)
+		return core.ExitInconclusive
+	}
+	if len(vr.Viol) > 0 {
+		c.Violation(c.Replay, fmt.Sprintf("monitors failed (line, monitor): %v", vr.Viol))
+		return core.ExitViolation
+	}
+	fmt.Printf("OK property=C01 replay=%s (drift lines: %v)\n", c.Replay, vr.Drift)
+	return core.ExitOK
 }
